@@ -48,7 +48,7 @@ func (r *Run) ReportRaces(logPrefix string) {
 		for _, l := range strings.Split(blk, "\n") {
 			l = strings.TrimSpace(l)
 			if strings.HasPrefix(l, "github.com/rogpeppe/go-internal/") {
-				if i := strings.Index(l, "("); i > 0 {
+				if i := strings.LastIndex(l, "("); i > 0 {
 					l = l[:i]
 				}
 				frames = append(frames, l)
